@@ -685,7 +685,7 @@ func readerCases(r *rand.Rand, thorough bool) {
 		scs = sel
 	}
 	for i, sc := range scs {
-		sc.Topic = fmt.Sprintf("t%d", i)
+		sc.Topic = fmt.Sprintf("t%04d", i) // fixed length: the topic name is part of every response frame (cut faults count bytes)
 	}
 	kafka.VerifStart()
 	res := make([]string, len(scs))
